@@ -388,3 +388,24 @@ PROPS["C07"] = {
     "quick": [R("TestPropSpoolOutage", 30), P("TestOutageUnderLoad", timeout=900)],
     "thorough": [R("TestPropSpoolOutage", 90, shards=10, timeout=3000), P("TestOutageUnderLoad", timeout=3000, shards=6)],
 }
+
+PROPS["C17"] = {
+    "pkg": "c17", "level": "exploration",
+    "rule": ("rapid draws a scripted httptest server (a sequence of 0-8 per-request outcomes for the /metrics path out of {200, 400, 503, hang past the client "
+             "timeout, connection reset}, followed by an all-200 tail; config posts to other paths are ignored), a grafanaNet route configuration "
+             "(concurrency 1-4, bufSize 2..1000 per worker, flushMaxNum 1-50, flushMaxWait 5-50 ms, timeout 50-200 ms, errBackoffMin 1 ms, blocking "
+             "on/off, org id) and a stream of 1-120 points over 1-12 series with increasing timestamps and pauses; optionally Shutdown() right "
+             "after the last point. Every POST body is decoded (snappy frame -> msg header -> msgp MetricDataArray). Oracle: (a) #dispatched = "
+             "#distinct points in a 2xx-answered request + queue_full counter delta, and nothing acknowledged that was not dispatched; blocking "
+             "mode drops nothing; (b) a request answered with a failure is followed, for each series in it, by an identical body before any other; "
+             "(c) per series, timestamps in acknowledgement order are non-decreasing; (d) Dispatch returns within 2 s in non-blocking mode; (e) "
+             "Shutdown() returns within 20 s and afterwards (a) holds for everything buffered; records carry the configured org id and the "
+             "interval of the matching storage-schemas rule. Non-trivial: a failure followed by a retry of the same batch AND a request with >=2 "
+             "series. Distinct = hash(script, configuration, stream shape)."),
+    "level_text": "Generated fault sequences against a real GrafanaNet route talking to a scripted HTTP server, with decoded POST bodies as the observation; interleavings of workers/timers are sampled.",
+    "level_note": "Worker identity is not visible on the wire: retry-before-later-batch is checked per series (a series is pinned to one worker). Liveness bounds (2 s, 20 s) are three orders of magnitude above normal.",
+    "technique": "property-based testing (rapid) with scripted HTTP fault injection; oracle over decoded request history",
+    "assumptions": ["httptest server on loopback", "snappy + msgp decoders from the module cache decode what the route encodes"],
+    "quick": [R("TestPropGrafanaNet", 120)],
+    "thorough": [R("TestPropGrafanaNet", 600, shards=12, timeout=3000)],
+}
